@@ -5,11 +5,11 @@
 #[verifier::external_body] #[verifier::reject_recursive_types(T)]
 pub struct HashSet<T> { _p: std::marker::PhantomData<T> }
 impl<T> HashSet<T> {
-    pub uninterp spec fn view(&self) -> Set<T>;
-    #[verifier::external_body] pub fn new() -> (r: Self) ensures r.view() == Set::<T>::empty() { unimplemented!() }
+    pub uninterp spec fn view(&self) -> SSet<T>;
+    #[verifier::external_body] pub fn new() -> (r: Self) ensures r.view() == SSet::<T>::empty() { unimplemented!() }
     #[verifier::external_body] pub fn insert(&mut self, t: T) -> (b: bool) ensures final(self).view() == old(self).view().insert(t), b == !old(self).view().contains(t) { unimplemented!() }
     #[verifier::external_body] pub fn contains(&self, t: &T) -> (b: bool) ensures b == self.view().contains(*t) { unimplemented!() }
-    #[verifier::external_body] pub fn is_empty(&self) -> (b: bool) ensures b == (self.view() =~= Set::<T>::empty()) { unimplemented!() }
+    #[verifier::external_body] pub fn is_empty(&self) -> (b: bool) ensures b == (self.view() =~= SSet::<T>::empty()) { unimplemented!() }
     #[verifier::external_body] pub fn iter(&self) -> (r: VxIter<&T>)
         ensures forall|i: int| 0 <= i < r.items().len() ==> self.view().contains(*(#[trigger] r.items()[i])),
             forall|t: T| self.view().contains(t) ==> exists|i: int| 0 <= i < r.items().len() && *(#[trigger] r.items()[i]) == t,
@@ -37,7 +37,7 @@ impl<K, V> HashMap<K, V> {
     { unimplemented!() }
     #[verifier::external_body] pub fn get(&self, k: &K) -> (r: Option<&V>) ensures r == (if self.view().contains_key(*k) { Some(&self.view()[*k]) } else { None }) { unimplemented!() }
     #[verifier::external_body] pub fn contains_key(&self, k: &K) -> (b: bool) ensures b == self.view().contains_key(*k) { unimplemented!() }
-    #[verifier::external_body] pub fn is_empty(&self) -> (b: bool) ensures b == (self.view().dom() =~= Set::<K>::empty()) { unimplemented!() }
+    #[verifier::external_body] pub fn is_empty(&self) -> (b: bool) ensures b == (self.view().dom() =~= SSet::<K>::empty()) { unimplemented!() }
     #[verifier::external_body] pub fn into_iter(self) -> (r: VxIter<(K, V)>) ensures r.items() == self.pairs(), self.order_ok() { unimplemented!() }
     #[verifier::external_body] pub fn iter(&self) -> (r: VxIter<(&K, &V)>)
         ensures self.order_ok(), r.items().len() == self.key_order().len(),
